@@ -73,8 +73,22 @@ class Prop(BaseProp):
                 else:
                     t[-1] = rng.choice(ALPH)
                 strs.append("".join(t))
+        # structured near-misses around the checksum rule: truncated / shifted / reversed / wrong-slice checksums,
+        # extra bytes, and the empty payload (decoded strings shorter than four bytes)
+        h256 = lambda b: hashlib.sha256(hashlib.sha256(b).digest()).digest()
+        pays = [b"", b"\x00", b"\x00\x00", b"\x01", bytes(rng.randrange(256) for _ in range(3)), bytes(rng.randrange(256) for _ in range(21)),
+                b"\x00" + bytes(rng.randrange(256) for _ in range(20))]
+        for pl in pays:
+            full = h256(pl)
+            c = full[:4]
+            for j in range(0, 4):
+                strs.append(_b58(pl + c[:j]))
+                strs.append(_b58(c[:j]))
+            strs += [_b58(pl + c[1:]), _b58(pl + c[::-1]), _b58(pl + full[-4:]), _b58(pl + c + b"\x00"), _b58(b"\x00" + pl + c),
+                     _b58(pl + full[1:5]), _b58(pl + c), _b58(pl + hashlib.sha256(pl).digest()[:4])]
         for s in strs:
-            cases.append({"kind": "Dec", "s": s})
+            if s != "" or True:
+                cases.append({"kind": "Dec", "s": s})
         return cases
 
     def run_impl(self, case):
